@@ -436,9 +436,9 @@ func genPlainOp(r *rng, nr, nc int, atom *int) tblOp {
 	case 3:
 		p := r.rangeI(-1, nc+1)
 		if r.chance(20) {
-			return tblOp{Kind: "InsertColumn", A: []int{nc, 1000 + r.intn(2000)}, Append: true, Data: data(r.rangeI(0, nr+1))}
+			return tblOp{Kind: "InsertColumn", A: []int{nc, colWidth(r)}, Append: true, Data: data(r.rangeI(0, nr+1))}
 		}
-		return tblOp{Kind: "InsertColumn", A: []int{p, 1000 + r.intn(2000)}, Data: data(r.rangeI(0, nr+1))}
+		return tblOp{Kind: "InsertColumn", A: []int{p, colWidth(r)}, Data: data(r.rangeI(0, nr+1))}
 	case 4:
 		return tblOp{Kind: "DeleteColumn", A: []int{r.rangeI(-1, nc)}}
 	case 5:
@@ -877,4 +877,12 @@ func readSweep(t *document.Table, r *rng, plain bool) (msg string) {
 	_, _ = t.GetCellRange(-1, 0, nr, nc)
 	_, _ = t.FindCellsByText("T1", false)
 	return ""
+}
+
+// colWidth: the width handed to a column insertion - now and then 0 (legal: the column is as wide as the grid says)
+func colWidth(r *rng) int {
+	if r.chance(15) {
+		return 0
+	}
+	return 1000 + r.intn(2000)
 }
